@@ -549,6 +549,20 @@ func (w *world) step(st J) J {
 			default:
 				fatal("verify on %T", o)
 			}
+		case "slotsetalg":
+			// caller edits the parsed protected map of one COSE_Signature of a COSE_Sign (retained raw bytes, if any, stay)
+			sg := w.objs[name].(*cose.SignMessage).Signatures[num(st["slot"])]
+			if sg.Headers.Protected == nil {
+				sg.Headers.Protected = cose.ProtectedHeader{}
+			}
+			if st["absent"] == true {
+				delete(sg.Headers.Protected, cose.HeaderLabelAlgorithm)
+			} else {
+				sg.Headers.Protected[cose.HeaderLabelAlgorithm] = cose.Algorithm(num(st["alg"]))
+			}
+		case "slotclearraw":
+			sg := w.objs[name].(*cose.SignMessage).Signatures[num(st["slot"])]
+			sg.Headers.RawProtected, sg.Headers.RawUnprotected = nil, nil
 		case "nilslot":
 			w.objs[name].(*cose.SignMessage).Signatures[num(st["slot"])] = nil
 		case "marshal":
